@@ -373,3 +373,133 @@ Proof. split; vm_compute; reflexivity. Qed.
 (* the hypothesis of the window theorem is what fails in the F13 history *)
 Example ex_window_f13 : window_ok (run_seq 100 (f13_history P16)) = false.
 Proof. vm_compute; reflexivity. Qed.
+
+(* ================= the identifier field through the retrying client ================= *)
+
+Definition kept (m : rmsg) : Prop := r_given m = 0 \/ r_id m = r_given m.
+Definition qinv (q : list qent) : Prop := Forall (fun e => kept (ent_msg e)) q.
+Definition tinv (ts : list rtask) : Prop :=
+  Forall (fun t => match t with TPub m => kept m | TRetry => True end) ts.
+Definition wire_ok (w : wire) : Prop := Forall (fun x => sent_ok (snd x) = true) w.
+
+Lemma new_id_nonzero c : snd (new_id c) <> 0.
+Proof.
+  destruct (new_id c) as [c' id] eqn:E. destruct (new_id_spec c c' id E) as (H & _).
+  cbn [snd]. pose proof (issued_range c 0). lia.
+Qed.
+
+Lemma submitted_kept tag qos g : kept (submitted tag qos g).
+Proof. right. reflexivity. Qed.
+
+Lemma fill_ok c m : kept m -> kept (snd (fill c m)) /\ sent_ok (snd (fill c m)) = true.
+Proof.
+  intros Hk. unfold fill. destruct (r_id m =? 0) eqn:E.
+  - apply N.eqb_eq in E. pose proof (new_id_nonzero c) as Hn.
+    destruct (new_id c) as [c' id]. cbn [snd] in *.
+    assert (Hg : r_given m = 0) by (destruct Hk as [Hk|Hk]; congruence).
+    split; [left; exact Hg|]. unfold sent_ok. cbn [r_id r_given]. rewrite Hg.
+    apply N.eqb_neq in Hn. rewrite Hn. reflexivity.
+  - cbn [snd]. split; [exact Hk|]. unfold sent_ok. rewrite E. cbn [negb andb].
+    destruct Hk as [Hk|Hk]; rewrite Hk; [reflexivity|]. rewrite N.eqb_refl. apply orb_true_r.
+Qed.
+
+Lemma transmit_spec st m st' ok m' : transmit st m = (st', ok, m') -> kept m ->
+  rs_q st' = rs_q st /\ kept m' /\ sent_ok m' = true.
+Proof.
+  unfold transmit. intros H Hk. pose proof (fill_ok (rs_c st) m Hk) as [H1 H2].
+  destruct (fill (rs_c st) m) as [c' mf]. cbn [snd] in *.
+  destruct (rs_alive st); [destruct (rs_cut st) as [|[|k]]|]; injection H as <- <- <-;
+    cbn [rs_q]; auto.
+Qed.
+
+Lemma qinv_app a b : qinv a -> qinv b -> qinv (a ++ b).
+Proof. unfold qinv. intros. apply Forall_app. split; assumption. Qed.
+
+Lemma publish_task_ok st m st' w : publish_task st m = (st', w) -> qinv (rs_q st) -> kept m ->
+  qinv (rs_q st') /\ wire_ok w.
+Proof.
+  unfold publish_task. intros H Hq Hk. destruct (rs_q st) as [|e q] eqn:Eq.
+  - destruct (transmit st m) as [[st1 ok] m1] eqn:Et.
+    destruct (transmit_spec _ _ _ _ _ Et Hk) as (Hq1 & Hk1 & Hs1). injection H as <- <-.
+    split; [|constructor; [exact Hs1 | constructor]].
+    destruct ok; [rewrite Hq1, Eq; constructor|]. cbn [set_q rs_q]. constructor; [exact Hk1 | constructor].
+  - injection H as <- <-. split; [|constructor].
+    destruct (0 <? r_qos m); [|rewrite Eq; exact Hq]. cbn [set_q rs_q].
+    apply (qinv_app (e :: q) [QDeferred (defer_copy m)]); [exact Hq|]. constructor; [exact Hk | constructor].
+Qed.
+
+Lemma retry_loop_ok old : forall st st' w, retry_loop st old = (st', w) -> qinv (rs_q st) -> qinv old ->
+  qinv (rs_q st') /\ wire_ok w.
+Proof.
+  induction old as [|e rest IH]; intros st st' w H Hq Ho; cbn [retry_loop] in H.
+  - injection H as <- <-. split; [exact Hq | constructor].
+  - inversion Ho as [|? ? Hke Hrest]; subst. destruct e as [m|m]; cbn [ent_msg] in Hke.
+    + destruct (transmit st m) as [[st1 ok] m1] eqn:Et.
+      destruct (transmit_spec _ _ _ _ _ Et Hke) as (Hq1 & Hk1 & Hs1). destruct ok.
+      * destruct (retry_loop st1 rest) as [st2 w2] eqn:Er. injection H as <- <-.
+        destruct (IH _ _ _ Er) as [Ha Hb]; [rewrite Hq1; exact Hq | exact Hrest|].
+        split; [exact Ha | constructor; [exact Hs1 | exact Hb]].
+      * injection H as <- <-. cbn [set_q rs_q]. split; [|constructor; [exact Hs1 | constructor]].
+        apply qinv_app; [rewrite Hq1; exact Hq|]. constructor; [exact Hk1 | exact Hrest].
+    + destruct (transmit st m) as [[st1 ok] m1] eqn:Et.
+      destruct (transmit_spec _ _ _ _ _ Et Hke) as (Hq1 & Hk1 & Hs1).
+      destruct (retry_loop (if ok then st1 else set_q st1 (rs_q st1 ++ [QRetry m1])) rest) as [st2 w2] eqn:Er.
+      injection H as <- <-.
+      destruct (IH _ _ _ Er) as [Ha Hb]; [|exact Hrest|].
+      * destruct ok; [rewrite Hq1; exact Hq|]. cbn [set_q rs_q].
+        apply qinv_app; [rewrite Hq1; exact Hq|]. constructor; [exact Hk1 | constructor].
+      * split; [exact Ha | constructor; [exact Hs1 | exact Hb]].
+Qed.
+
+Lemma run_task_ok st t st' w : run_task st t = (st', w) -> qinv (rs_q st) ->
+  match t with TPub m => kept m | TRetry => True end -> qinv (rs_q st') /\ wire_ok w.
+Proof.
+  destruct t as [m|]; cbn [run_task]; intros H Hq Hk.
+  - exact (publish_task_ok _ _ _ _ H Hq Hk).
+  - apply (retry_loop_ok _ _ _ _ H); [constructor | exact Hq].
+Qed.
+
+Lemma drain_ok ts : forall st st' lft w, drain st ts = (st', lft, w) -> qinv (rs_q st) -> tinv ts ->
+  qinv (rs_q st') /\ tinv lft /\ wire_ok w.
+Proof.
+  induction ts as [|t rest IH]; intros st st' lft w H Hq Ht; cbn [drain] in H.
+  - injection H as <- <- <-. repeat split; [exact Hq | constructor | constructor].
+  - destruct (rs_alive st).
+    + inversion Ht as [|? ? Hkt Hrest]; subst.
+      destruct (run_task st t) as [st1 w1] eqn:Er.
+      destruct (drain st1 rest) as [[st2 l2] w2] eqn:Ed. injection H as <- <- <-.
+      destruct (run_task_ok _ _ _ _ Er Hq Hkt) as [Ha Hb].
+      destruct (IH _ _ _ _ Ed Ha Hrest) as (Hc & Hd & He).
+      repeat split; [exact Hc | exact Hd |]. apply Forall_app. split; assumption.
+    + injection H as <- <- <-. repeat split; [exact Hq | exact Ht | constructor].
+Qed.
+
+Lemma run_retry_from_ok ops : forall st pend, qinv (rs_q st) -> tinv pend ->
+  wire_ok (run_retry_from st pend ops).
+Proof.
+  induction ops as [|o ops IH]; intros st pend Hq Hp; cbn [run_retry_from]; [constructor|].
+  destruct o as [tag qos g|s cut].
+  - destruct (drain st (pend ++ [TPub (submitted tag qos g)])) as [[st1 l1] w1] eqn:Ed.
+    destruct (drain_ok _ _ _ _ _ Ed Hq) as (Ha & Hb & Hc).
+    + apply Forall_app. split; [exact Hp|]. constructor; [apply submitted_kept | constructor].
+    + apply Forall_app. split; [exact Hc | apply IH; assumption].
+  - destruct (drain (RS s (rs_conn st + 1) true cut (rs_q st)) (pend ++ [TRetry])) as [[st1 l1] w1] eqn:Ed.
+    destruct (drain_ok _ _ _ _ _ Ed) as (Ha & Hb & Hc); [exact Hq| |].
+    + apply Forall_app. split; [exact Hp|]. constructor; [exact I | constructor].
+    + apply Forall_app. split; [exact Hc | apply IH; assumption].
+Qed.
+
+(* every transmission, first or repeated, direct or deferred behind a pending retry, on whatever
+   connection with whatever counter and however the connections are cut, carries a non-zero
+   identifier, and the caller's own whenever the caller provided one *)
+Lemma retry_sent_ok ops : wire_ok (run_retry ops).
+Proof. apply run_retry_from_ok; constructor. Qed.
+
+(* the deferred path really is exercised, with a second cut and later retransmissions *)
+Example ex_retry_deferred :
+  map (fun w => (fst w, r_tag (snd w), r_id (snd w)))
+      (run_retry [XConn 100 1; XPub 1 1 0; XPub 2 1 40001; XPub 3 2 40002; XPub 4 1 0;
+                  XConn 256 2; XPub 5 2 0; XConn 1000 0; XPub 6 1 0])
+  = [(1, 1, 101); (2, 1, 101); (2, 2, 40001); (2, 3, 40002); (2, 4, 257);
+     (3, 2, 40001); (3, 3, 40002); (3, 4, 257); (3, 5, 1001); (3, 6, 1002)].
+Proof. vm_compute; reflexivity. Qed.
